@@ -701,7 +701,7 @@ def spec_to_code(ctx, pkg, groups, n_inst, full_single):
 # ------------------------------------------------------------------------------------------------------------------------------
 # code -> spec: random types, random candidates, recorded events
 # ------------------------------------------------------------------------------------------------------------------------------
-RESERVED_NAMES = ["if", "def", "class", "min", "type", "lambda", "print", "id", "is", "yield", "str", "pass"]
+RESERVED_NAMES = ["if", "def", "class", "min", "max", "lambda", "print", "id", "is", "yield", "str", "pass", "list", "in"]
 
 
 def rand_prim_expr(rng, in_array=False):
@@ -718,15 +718,19 @@ def rand_prim_expr(rng, in_array=False):
     return rng.choice(["utf8", "byte"]) if in_array else "saturated uint8"
 
 
+EXTENT_BYTES = [4096, 65536, 1000000]  # by nesting depth (a delimited type must be able to hold what it nests)
+
+
 def rand_files(rng, ns, ntypes):
-    """random root namespace: leaf composites first, later types may nest earlier ones; some services, nested namespaces,
-    reserved-word field names, constants, deprecation, fixed port-IDs, two minor versions"""
+    """random root namespace: leaf composites first, later types may nest earlier ones (depth <= 2); services, nested namespaces,
+    reserved-word field names, constants, deprecation, fixed port-IDs, minor versions other than 0"""
     files = {}
-    known = []  # (full reference, is_union)
-    port = [rng.randint(20, 200)]
+    known = []  # (full reference, nesting depth)
+    port = rng.randint(20, 200)
     for i in range(ntypes):
         sub = rng.choice(["", "", "", "sub.", "sub.deep."])
         short = "T%d" % i
+        depth = [0]
 
         def body(allow_union=True):
             union = allow_union and rng.random() < 0.28
@@ -739,36 +743,43 @@ def rand_files(rng, ns, ntypes):
                 lines.append("%s C%d = %d" % (rng.choice(["uint8", "int16", "uint64"]), i, rng.randint(0, 100)))
             if not union and rng.random() < 0.15:
                 lines.append("float32 K%d = %s" % (i, rng.choice(["3.5", "-1.25e3", "1/3"])))
+            nestable = [kn for kn in known if kn[1] < 2]
             for g in range(nf):
                 r = rng.random()
-                if known and r < 0.22:
-                    ex = rng.choice(known)
+                if nestable and r < 0.22:
+                    ref, dd = rng.choice(nestable)
+                    depth[0] = max(depth[0], dd + 1)
+                    ex = ref
                 elif r < 0.55:
                     ex = rand_prim_expr(rng)
+                elif nestable and rng.random() < 0.25:
+                    ref, dd = rng.choice(nestable)
+                    depth[0] = max(depth[0], dd + 1)
+                    ex = "%s[%s%d]" % (ref, rng.choice(["", "<="]), rng.choice([1, 2, 3]))
                 else:
-                    el = rng.choice(known) if (known and rng.random() < 0.25) else rand_prim_expr(rng, in_array=True)
-                    n = rng.choice([1, 2, 3, 4, 5, 9]) if rng.random() < 0.93 else rng.choice([255, 256, 300])
+                    el = rand_prim_expr(rng, in_array=True)
+                    n = rng.choice([1, 2, 3, 4, 5, 9])
+                    if rng.random() < 0.07 and not el.endswith(("32", "64", "33", "63")):
+                        n = rng.choice([255, 256, 300])
                     ex = "%s[%s%d]" % (el, "" if (rng.random() < 0.4 and el != "utf8") else "<=", n)
                 lines.append("%s %s" % (ex, names[g]))
                 if not union and rng.random() < 0.1:
                     lines.append("void%d" % rng.choice([1, 3, 7, 8]))
-            lines.append("@sealed" if rng.random() < 0.55 else "@extent %d" % (8 * rng.choice([1024, 1500, 4096])))
+            lines.append("@sealed" if rng.random() < 0.55 else "@extent %d" % (8 * EXTENT_BYTES[depth[0]]))
             return "\n".join(lines) + "\n"
 
         dep = "@deprecated\n" if rng.random() < 0.08 else ""
         prefix = ""
         if rng.random() < 0.12:
-            port[0] += 1
-            prefix = "%d." % port[0]
+            port += 1
+            prefix = "%d." % port
         if rng.random() < 0.12:
-            text = dep + body(False) + "---\n" + body()
-            files["%s%s%s.1.0.dsdl" % (sub.replace(".", "/"), prefix, short)] = text
+            files["%s%s%s.1.0.dsdl" % (sub.replace(".", "/"), prefix, short)] = dep + body(False) + "---\n" + body()
             continue  # services cannot be nested
-        text = dep + body()
-        files["%s%s%s.1.%d.dsdl" % (sub.replace(".", "/"), prefix, short, rng.choice([0, 0, 0, 3]))] = text
+        minor = rng.choice([0, 0, 0, 3])
+        files["%s%s%s.1.%d.dsdl" % (sub.replace(".", "/"), prefix, short, minor)] = dep + body()
         if not dep:
-            ver = [k for k in files if k.endswith(short + ".1.0.dsdl") or k.endswith(short + ".1.3.dsdl")][0].split(".")[-2]
-            known.append("%s.%s%s.1.%s" % (ns, sub, short, ver))
+            known.append(("%s.%s%s.1.%d" % (ns, sub, short, minor), depth[0]))
     return files
 
 
@@ -1197,7 +1208,7 @@ def judge(ctx, recs, meta):
         sig = "C18|%s|%s" % (clause, info["tag"])
         what = {"ctor": "constructor %(type)s(%(kw)s) -> %(exc)s", "assign": "%(type)s.%(field)s = %(x)s -> %(exc)s",
                 "model": "%(type)s._MODEL_ differs from the source model", "rt": "%(type)s: %(obj)s"}[info["op"]] % dict({"exc": "", "kw": ""}, **info)
-        ctx.violation(sig, "%s  [T-layer clause %s]" % (what, clause), {"dir": "code->spec", "record": recs_by_id(recs, rid), "info": info})
+        ctx.violation(sig, "%s  [T-layer clause %s]" % (what, clause), {"dir": "code->spec", "seed": ctx.seed, "tier": ctx.tier, "record": recs_by_id(recs, rid), "info": info})
     return rej
 
 
@@ -1227,7 +1238,7 @@ def selftests(ctx, pkg, groups, recs):
                          f is not None and f.kind == "violation" and f.clause == "pyobj.accept")
             bad2 = json.loads(json.dumps(group))
             for v in bad2:
-                v[0]["post"] = ["max" if x == "default" else x for x in v[0]["post"]] if "default" in v[0]["post"] else ["default"] * 3
+                v[0]["post"][0] = "min" if v[0]["post"][0] != "min" else "max"
             f2, _, _ = run_history(pkg.comps, pkg.ns, comp, kinds, bad2, 0)
             ctx.selftest("perturbed expected post-state is reported by the replay driver", f2 is not None and f2.kind == "violation")
             done = 1
@@ -1265,7 +1276,8 @@ def selftests(ctx, pkg, groups, recs):
     r["emb"] = dict(r["emb"], fields=r["emb"]["fields"][:-1] + [r["emb"]["fields"][-1] + [33]])
     r.update(id=5)
     bad.append((r, "pyobj.model.fields"))
-    r = first(lambda r: r["ev"] == "assign" and r["out"] == "stored" and r["x"]["c"] == "int" and not r["union"])
+    r = first(lambda r: r["ev"] == "assign" and r["out"] == "stored" and r["x"]["c"] == "int" and not r["union"]
+              and r["ft"][r["f"] - 1]["k"] in ("uint", "int"))
     r["post"][r["f"] - 1] = enc_int(1 if r["x"]["bits"] == [] else 0)
     r.update(id=6)
     bad.append((r, "pyobj.stored"))
@@ -1284,7 +1296,7 @@ def special_files():
                               "bool FLAG = true\nuint8 CH = 'x'\ntruncated uint3 a\nvoid5\n{ns}.sub.In.1.0 c\n{ns}.sub.In.1.0[<=2] ac\nutf8[<=5] s\n"
                               "byte[3] by\n@extent 1024\n"),
         "Msg.1.0.dsdl": "uint8 a\n@extent 1024\n",
-        "Kw.1.0.dsdl": "uint8 if\nint8 def\nfloat32 type\nbool[<=2] min\nutf8[<=9] str\n@sealed\n",
+        "Kw.1.0.dsdl": "uint8 if\nint8 def\nfloat32 lambda\nbool[<=2] min\nutf8[<=9] str\n@sealed\n",
         "300.Srv.1.0.dsdl": "uint8 X = 3\nuint8 q\n{ns}.sub.In.1.0[<=2] arr\n@sealed\n---\n@union\nuint8 ok\n{ns}.sub.In.1.0 err\nutf8[<=4] msg\n@extent 64\n",
         "Empty.1.0.dsdl": "@sealed\n",
         "EmptyD.1.0.dsdl": "@extent 32\n",
@@ -1292,8 +1304,8 @@ def special_files():
     }
 
 
-def run(ctx):
-    # 1. the bounded design: I => P for every constructor call and every history; negative controls
+def part_model(ctx):
+    """the bounded design: I => P for every constructor call and every history; negative controls"""
     check_models(ctx, "PyObject", "MaxHist=3 CtorSpecial=3 (every constructor call, free histories)", 2)
     if not ctx.quick:
         check_models(ctx, "PyObject4", "MaxHist=4 CtorSpecial=1", 8)
@@ -1303,9 +1315,9 @@ def run(ctx):
             raise MachineryFailure("negative control %s was not refuted (%s)" % (flag, neg.error))
         ctx.cov.setdefault("model_negative_controls", []).append("%s refuted by invariant %s after %d states" % (flag, neg.violated, neg.distinct))
 
-    # 2. spec -> code
+
+def part_spec_to_code(ctx, pkg_a):
     groups = emit_all(ctx, ctx.pick("PyObject_emitq", "PyObject_emit"), "MaxHist=3 CtorSpecial=1 (emission)")
-    pkg_a = Pkg(ctx, "c18a", abstract_files("c18a"))
     if not pkg_a.fine_api:
         ctx.not_exercised("build_namespace_tree/create_default_generators path (fell back to nunavut.generate_types)")
     nhist, nsteps, nskip = spec_to_code(ctx, pkg_a, groups, ctx.pick(1, 3), True)
@@ -1313,8 +1325,10 @@ def run(ctx):
     ctx.sample({"direction": "spec->code", "class": "c18a.U1v*.1.0 (union of int, byte array, composite)", "history": g0[0]})
     ctx.cov["spec_to_code"] = {"histories_replayed": nhist, "steps": nsteps, "instantiations_skipped_candidate_not_applicable": nskip,
                                "action_sequences": sum(len(v) for v in groups.values())}
+    return groups
 
-    # 3. code -> spec
+
+def part_code_to_spec(ctx, pkg_a):
     recs, meta = [], {}
     pkgs = [pkg_a, Pkg(ctx, "c18s", {k: v.replace("{ns}", "c18s") for k, v in special_files().items()})]
     ntypes = ctx.pick(60, 140)
@@ -1332,9 +1346,16 @@ def run(ctx):
         if ex is not None:
             ctx.sample({"direction": "code->spec", "event": {k: (v if len(json.dumps(v)) < 400 else "...") for k, v in ex.items()}, "info": meta[ex["id"]]})
     ctx.cov["code_to_spec"] = {ev: sum(1 for r in recs if r["ev"] == ev) for ev in ("ctor", "assign", "model", "rt")}
+    ctx.cov["code_to_spec"]["generated_classes"] = sum(len(p.comps) + len(p.services) for p in pkgs)
     judge(ctx, recs, meta)
+    return recs
 
-    # 4. binding self-tests
+
+def run(ctx):
+    part_model(ctx)
+    pkg_a = Pkg(ctx, "c18a", abstract_files("c18a"))
+    groups = part_spec_to_code(ctx, pkg_a)
+    recs = part_code_to_spec(ctx, pkg_a)
     selftests(ctx, pkg_a, groups, recs)
 
     ctx.cov["rule"] = ("spec->code: every complete history emitted by PyObject.tla (3 kind vectors x struct/union, constructor + 2 actions) on "
@@ -1362,6 +1383,10 @@ def replay(ctx, case):
         if f is not None:
             report(ctx, f, case)
         return
-    # a recorded event cannot be re-executed without its random context: re-run the whole check with the same seed instead
-    print("replay of a code->spec record: re-running the quick tier with the recorded seed")
-    run(ctx)
+    # code->spec: the random types and candidates are a function of (seed, tier): regenerate them and judge again
+    import random
+
+    ctx.tier = case.get("tier", ctx.tier)
+    ctx.seed = case.get("seed", ctx.seed)
+    ctx.rng = random.Random(ctx.seed * 1000003 + sum(map(ord, ctx.pid)))
+    part_code_to_spec(ctx, Pkg(ctx, "c18a", abstract_files("c18a")))
